@@ -17,6 +17,7 @@ import Bmc.Proofs.GenEnc.V1Session
 import Bmc.Proofs.GenEnc.Message
 import Bmc.Proofs.GenEnc.GetPowerReadingReq
 import Bmc.Proofs.GenEnc.V2Session
+import Bmc.Proofs.GenEnc.AES128CBC
 #print axioms Bmc.Proofs.C08.message_roundtrip
 #print axioms Bmc.Proofs.C08.message_reencode
 #print axioms Bmc.Proofs.C08.v2_roundtrip
@@ -29,6 +30,7 @@ import Bmc.Proofs.GenEnc.V2Session
 #print axioms Bmc.Proofs.C08.rakp1_reencode
 #print axioms Bmc.Proofs.C08.aes_roundtrip
 #print axioms Bmc.Proofs.GenEnc.translated_ok
+#print axioms Bmc.Proofs.GenEnc.gaveUp_empty
 #print axioms Bmc.Proofs.GenEnc.uninterpreted_ok
 #print axioms Bmc.Proofs.GenEnc.GetSensorReadingReq_enc_eq
 #print axioms Bmc.Proofs.GenEnc.GetDCMICapabilitiesInfoReq_enc_eq
@@ -50,3 +52,6 @@ import Bmc.Proofs.GenEnc.V2Session
 #print axioms Bmc.Proofs.GenEnc.GetPowerReadingReq_enc_eq_any
 #print axioms Bmc.Proofs.GenEnc.GetPowerReadingReq_enc_eq
 #print axioms Bmc.Proofs.GenEnc.V2Session_enc_eq
+#print axioms Bmc.Proofs.GenEnc.AES128CBC_enc_param
+#print axioms Bmc.Proofs.GenEnc.AES128CBC_enc_eq
+#print axioms Bmc.Proofs.GenEnc.AES128CBC_enc_randErr
